@@ -252,7 +252,7 @@ def run(ctx, only=None):
                  display="raises" if text is None else ("raw" if text == v else "json"))
         # --- property oracle on the real code
         if text is None:
-            sig = "C34-format-raises-on-json-like-string" if isinstance(v, str) and v[:1] in '[{"' else "C34-format-raises"
+            sig = "C34-format-raises-on-json-like-string" if isinstance(v, str) and v[:1] in ("[", "{", '"') else "C34-format-raises"
             ctx.violation(sig, "format_tag_value raises on a JSON-compatible value", case={"value": v}, expected="a display text", actual=f_impl)
             continue
         if not isinstance(text, str) or not encodable(text):
@@ -265,7 +265,7 @@ def run(ctx, only=None):
             plan.append(("parse", text, p_impl))
         want = "ok " + to_val(v)
         if p_impl != want:
-            if isinstance(v, str) and v[:1] in '[{"' and text == v:
+            if isinstance(v, str) and v[:1] in ("[", "{", '"') and text == v:
                 sig = "C34-json-like-string-displayed-raw"
             elif isinstance(v, str):
                 sig = "C34-string-does-not-stay-string"
